@@ -5,6 +5,7 @@
 -/
 import AgeModel.Extracted.CallOrder
 import Proofs.GoTieDecrypt
+import Proofs.GoTiePrims
 namespace AgeModel
 namespace Tie.C03
 
@@ -35,6 +36,14 @@ theorem decrypt_tie (P : Prims) {ι : Type} (E : GoTie.DecryptEnv P ι) (file : 
       | .error (.fatal _) => res.2 ≠ none ∧ res.2 ≠ Extracted.age_ErrIncorrectIdentity
       | .error e => res = ([], GoTie.decryptErr e none) :=
   GoTie.decrypt_tie P E file ids
+
+/-- what that MAC is, in the source: `age.headerMAC` translated from primitives.go — HMAC under
+    HKDF(file key, no salt, "header") of the header as received, serialised without its MAC
+    (HKDF, HMAC and `MarshalWithoutMAC` are parameters, `GoTie.MacEnv`) -/
+theorem headerMAC_tie (P : Prims) {κ η : Type} (E : GoTie.MacEnv P κ η) (fk : Bytes) (hdr : Format.Header) :
+    Extracted.age_headerMAC E.H E.R E.N E.M E.S fk ⟨hdr.stanzas.map GoTie.toGoFStanza, hdr.mac⟩ =
+      .ok (P.hmac (P.hkdf fk [] headerInfo 32) (Format.marshalNoMAC hdr), none) :=
+  GoTie.headerMAC_tie P E fk hdr
 
 end Tie.C03
 end AgeModel
